@@ -61,7 +61,8 @@ theorem consts_clean (pct : Bool) :
     Gen.C15.orOpen.count (marker pct) = 0 ∧ Gen.C15.orSep.count (marker pct) = 0 ∧
     Gen.C15.orClose.count (marker pct) = 0 ∧
     Gen.C15.wherePfx.count (marker pct) = 0 ∧ Gen.C15.andSep.count (marker pct) = 0 ∧
-    Gen.C15.groupPfx.count (marker pct) = 0 ∧ Gen.C15.orderPfx.count (marker pct) = 0 := by
+    Gen.C15.groupPfx.count (marker pct) = 0 ∧ Gen.C15.orderPfx.count (marker pct) = 0 ∧
+    Gen.C15.rawOpen.count (marker pct) = 0 ∧ Gen.C15.rawClose.count (marker pct) = 0 := by
   cases pct <;> decide
 
 /-! ## placeholders in the text of a clause -/
@@ -105,6 +106,11 @@ theorem render_count (pct : Bool) : ∀ (w : Where) (t : Str), render pct w = .o
     simp only [render, Except.ok.injEq] at h
     subst h
     simp [slots, h3]
+  | .raw txt, t, h, hf => by
+    obtain ⟨-, -, -, -, -, -, -, -, -, -, -, -, -, h14, h15⟩ := consts_clean pct
+    simp only [render, Except.ok.injEq] at h
+    subst h
+    simp [List.count_append, slots, h14, h15, hf txt (by simp [whereFields])]
   | .or ws, t, h, hf => by
     obtain ⟨-, -, -, -, -, -, h7, h8, h9, -⟩ := consts_clean pct
     simp only [render, bind, Except.bind] at h
@@ -159,7 +165,7 @@ theorem sqlText_count (pct : Bool) (st : Stmt) (ws : List Where) (t : Str) (h : 
     (hg : ∀ g, st.groupBy = some g → g.count (marker pct) = 0)
     (ho : ∀ o, st.orderBy = some o → o.count (marker pct) = 0) :
     t.count (marker pct) = slotsL ws := by
-  obtain ⟨-, -, -, -, -, -, -, -, -, h10, h11, h12, h13⟩ := consts_clean pct
+  obtain ⟨-, -, -, -, -, -, -, -, -, h10, h11, h12, h13, -, -⟩ := consts_clean pct
   simp only [sqlText, bind, Except.bind] at h
   cases hr : renders pct ws with
   | error e => simp [hr] at h
@@ -196,6 +202,7 @@ theorem slots_leafWhere (l : Leaf) : slots (leafWhere l).1 = (leafWhere l).2.len
   | inl f neg vs => by_cases he : vs.isEmpty <;> simp [leafWhere, he, slots]
   | null f neg => simp [leafWhere, slots]
   | like f neg p => simp [leafWhere, slots]
+  | raw t => simp [leafWhere, slots]
 
 mutual
 theorem slots_toWhere : ∀ (n : NCond), slots (toWhere n).1 = (toWhere n).2.length
@@ -304,6 +311,11 @@ theorem cond_fields : ∀ (c : Cond) (n : NCond), mkCond c = .ok n →
       simp [condFields, mkLeaf_field hl g (by simpa [toWhere_leaf] using hg)]
   | .badOp _ _, n, h => by simp [mkCond] at h
   | .badShape, n, h => by simp [mkCond] at h
+  | .raw t, n, h => by
+    simp only [mkCond, Except.ok.injEq] at h
+    subst h
+    intro g hg
+    simpa [toWhere_leaf, leafWhere, whereFields, condFields] using hg
   | .or cs kw, n, h => by
     simp only [mkCond, bind, Except.bind] at h
     cases hx : mkConds cs with
@@ -388,6 +400,7 @@ def Leaf.erase : Leaf → Leaf
   | .inl f neg vs => .inl f neg (vs.map Value.erase)
   | .null f neg => .null f neg
   | .like f neg _ => .like f neg []
+  | .raw t => .raw t
 
 mutual
 def NCond.erase : NCond → NCond
@@ -432,6 +445,7 @@ theorem leafWhere_erase (l : Leaf) :
       simp [leafWhere, Leaf.erase, he, he', Arg.erase, Function.comp_def]
   | null f neg => rfl
   | like f neg p => rfl
+  | raw t => rfl
 
 theorem eraseNConds_append (xs ys : List NCond) :
     eraseNConds (xs ++ ys) = eraseNConds xs ++ eraseNConds ys := by
@@ -493,6 +507,7 @@ theorem mkCond_erase : ∀ (c : Cond), mkCond c.erase = (mkCond c).map NCond.era
     cases mkLeaf f opEq a <;> simp [Except.map, pure, Except.pure, NCond.erase]
   | .badOp _ _ => rfl
   | .badShape => rfl
+  | .raw t => rfl
   | .or cs kw => by
     simp only [Cond.erase, mkCond, mkConds_erase cs, sortKw_erase, mkKw_erase, bind, Except.bind]
     cases mkConds cs with
@@ -609,6 +624,7 @@ theorem render_ok (pct : Bool) : ∀ (w : Where), ∃ t, render pct w = .ok t
     simp [render, hcl, bind, Except.bind, pure, Except.pure]
   | .const b => by simp [render]
   | .false => by simp [render]
+  | .raw t => by simp [render]
   | .or ws => by
     obtain ⟨ts, hts⟩ := renders_ok pct ws
     simp [render, hts, bind, Except.bind, pure, Except.pure]
@@ -675,6 +691,7 @@ theorem mkCond_fail : ∀ (c : Cond) (e : Fail), mkCond c = .error e → CtorFai
     | ok l => simp [hl, pure, Except.pure] at h
   | .badOp _ _, e, h => by simp [mkCond] at h; exact Or.inr h.symm
   | .badShape, e, h => by simp [mkCond] at h; exact Or.inl h.symm
+  | .raw t, e, h => by simp [mkCond] at h
   | .or cs kw, e, h => by
     simp only [mkCond, bind, Except.bind] at h
     cases hx : mkConds cs with
